@@ -529,8 +529,9 @@ func (w *worker) runCase(cs J) (res CaseResult) {
 	ctl.Close()
 
 	pre := cs["pre"].(J)
-	ctx := &MatchCtx{T0: time.Now().Unix()}
-	t0 := time.Unix(ctx.T0, 0)
+	t0 := time.Now()
+	ctx := &MatchCtx{T0: t0.UnixMilli()}
+	t0 = time.UnixMilli(ctx.T0)
 	obsC, err := Dial(w.port, w.timeout)
 	if err != nil {
 		w.restart()
@@ -597,14 +598,40 @@ func (w *worker) runCase(cs J) (res CaseResult) {
 		return fail(0, "loadfail", "state after load differs from pre-state: "+d)
 	}
 	prev := ob.String()
+	timed := false
+	for _, s := range steps {
+		if jInt(s.(J)["c"]) == 0 {
+			timed = true
+		}
+	}
+	modelNow := jInt(pre["now"])
+	realOk := true
 	for i, s := range steps {
 		st := s.(J)
+		ideal := st["ideal"].(J)
+		if jInt(st["c"]) == 0 {
+			// "dt ms pass": sleep until the wall clock has reached the model clock (plus a small margin)
+			target := t0.Add(time.Duration(jInt(ideal["post"].(J)["now"])-1000000+20) * time.Millisecond)
+			if d := time.Until(target); d > 0 {
+				time.Sleep(d)
+			}
+			res.Steps = i + 1
+			continue
+		}
+		// timed cases: the wall clock must not run ahead of the model clock by more than the margin the
+		// deadlines of such cases keep from every observation instant
+		if timed {
+			lag := time.Since(t0).Milliseconds() - (modelNow - 1000000)
+			if lag > 45 {
+				return fail(i+1, "error", fmt.Sprintf("timing: wall clock %d ms ahead of the model clock (inconclusive)", lag))
+			}
+		}
+		modelNow = jInt(ideal["post"].(J)["now"])
 		cmd := ctx.substTime(jCmd(st["cmd"]))
 		cn := conns[jInt(st["c"])]
 		if cn == nil {
 			return fail(i+1, "error", "case names an unknown connection")
 		}
-		ideal := st["ideal"].(J)
 		var real J
 		if rl, ok := st["real"].(J); ok {
 			real = rl
@@ -656,30 +683,49 @@ func (w *worker) runCase(cs J) (res CaseResult) {
 			res.Changed = true
 		}
 		prev = cur
+		var sess map[int64]*SessObs
+		var sessErr string
+		if i == len(steps)-1 {
+			sess, sessErr = observeSessions(conns, ideal["post"].(J))
+		}
 		check := func(e J) string {
 			if !matchReply(e["r"].(J), rep, ctx) {
 				return fmt.Sprintf("reply: expected %s, observed %s", expValString(e["r"].(J)), rep)
 			}
-			return compareState(e["post"].(J), ob, ctx, keySet(e["rel"]), keySet(e["tol"]))
+			if d := compareState(e["post"].(J), ob, ctx, keySet(e["rel"]), keySet(e["tol"])); d != "" {
+				return d
+			}
+			if i == len(steps)-1 {
+				if sessErr != "" {
+					return sessErr
+				}
+				return compareSessions(e["post"].(J), sess)
+			}
+			return ""
 		}
 		d := check(ideal)
+		d2 := "-"
+		if real != nil {
+			d2 = check(real)
+		}
 		if d == "" {
+			if real != nil && d2 != "" {
+				realOk = false // the server did not take the deviated path here: later deviated expectations do not apply
+			}
 			res.Steps = i + 1
 			continue
 		}
-		if real != nil {
-			if d2 := check(real); d2 == "" {
-				sr.Status = "known"
-				for _, x := range jList(real["dv"]) {
-					sr.Dv = append(sr.Dv, jStr(x))
-				}
-				sr.Detail = d
-				res.Known = append(res.Known, sr)
-				res.Steps = i + 1
-				// the model cannot follow the ideal continuation past a deviation: truncate here
-				res.Status = "known"
-				return res
+		if real != nil && realOk && d2 == "" {
+			sr.Status = "known"
+			for _, x := range jList(real["dv"]) {
+				sr.Dv = append(sr.Dv, jStr(x))
 			}
+			sr.Detail = d
+			res.Known = append(res.Known, sr)
+			res.Steps = i + 1
+			// the model cannot follow the ideal continuation past a deviation: truncate here
+			res.Status = "known"
+			return res
 		}
 		sr.Status = "viol"
 		sr.Detail = d
@@ -691,6 +737,84 @@ func (w *worker) runCase(cs J) (res CaseResult) {
 	}
 	res.Status = "ok"
 	return res
+}
+
+type SessObs struct {
+	InMulti bool
+	Db      string
+	Resp    string
+	Name    string
+}
+
+// observeSessions observes, for every connection of the case, whether it is inside MULTI (a MULTI probe
+// replies an error iff it is; a successful probe is undone with DISCARD) and, when it is not, its selected
+// database, protocol version and name through CLIENT INFO.  Destructive for watches: last step only.
+func observeSessions(conns map[int64]*Conn, post J) (map[int64]*SessObs, string) {
+	out := map[int64]*SessObs{}
+	for _, c := range jList(post["conn"]) {
+		cj := c.(J)
+		if _, ok := cj["name"]; !ok {
+			continue // single-connection family cases carry no session expectations
+		}
+		id := jInt(cj["id"])
+		cn := conns[id]
+		if cn == nil {
+			continue
+		}
+		so := &SessObs{}
+		out[id] = so
+		r, err := cn.DoS("MULTI")
+		if err != nil {
+			return nil, fmt.Sprintf("connection %d: no reply to the MULTI probe: %v", id, err)
+		}
+		if r.Kind == '-' {
+			so.InMulti = true
+			continue
+		}
+		if r, err := cn.DoS("DISCARD"); err != nil || r.Kind != '+' {
+			return nil, fmt.Sprintf("connection %d: DISCARD after the MULTI probe replied %v %v", id, r, err)
+		}
+		info, err := cn.DoS("CLIENT", "INFO")
+		if err != nil || info.Null || (info.Kind != '$' && info.Kind != '=' && info.Kind != '+') {
+			return nil, fmt.Sprintf("connection %d: CLIENT INFO replied %v %v", id, info, err)
+		}
+		fields := map[string]string{}
+		for _, kv := range strings.Fields(string(info.Str)) {
+			if i := strings.IndexByte(kv, '='); i > 0 {
+				fields[kv[:i]] = kv[i+1:]
+			}
+		}
+		so.Db, so.Resp, so.Name = fields["db"], fields["resp"], fields["name"]
+	}
+	return out, ""
+}
+
+func compareSessions(post J, obs map[int64]*SessObs) string {
+	for _, c := range jList(post["conn"]) {
+		cj := c.(J)
+		id := jInt(cj["id"])
+		so := obs[id]
+		if so == nil {
+			continue
+		}
+		wantMulti := jStr(cj["multi"]) != "off"
+		if wantMulti != so.InMulti {
+			return fmt.Sprintf("connection %d: expected MULTI state %q, observed inside-MULTI=%v", id, jStr(cj["multi"]), so.InMulti)
+		}
+		if so.InMulti {
+			continue
+		}
+		if so.Db != fmt.Sprint(jInt(cj["db"])) {
+			return fmt.Sprintf("connection %d: expected selected db %d, CLIENT INFO says db=%s", id, jInt(cj["db"]), so.Db)
+		}
+		if so.Resp != fmt.Sprint(jInt(cj["proto"])) {
+			return fmt.Sprintf("connection %d: expected protocol %d, CLIENT INFO says resp=%s", id, jInt(cj["proto"]), so.Resp)
+		}
+		if so.Name != string(jBytes(cj["name"])) {
+			return fmt.Sprintf("connection %d: expected name %q, CLIENT INFO says name=%s", id, jBytes(cj["name"]), so.Name)
+		}
+	}
+	return ""
 }
 
 func replayMain(args []string) {
